@@ -65,8 +65,18 @@ class ScriptedRand:
 
 
 def eff_prios(op):
-    """the Python floats update_priorities sees through priority.item() (float32 tensors round the value)"""
-    return [f32(p) if op[3] == "f32" else float(p) for p in op[2]]
+    """the Python numbers update_priorities sees through priority.item() (the tensor dtype rounds the value)"""
+    dt = op[3]
+    if dt == "f32":
+        return [f32(p) for p in op[2]]
+    if dt == "f16":
+        return [float(np.float16(p)) for p in op[2]]
+    if dt == "i64":
+        return [float(int(p)) for p in op[2]]
+    return [float(p) for p in op[2]]
+
+
+TORCH_DT = {"f32": torch.float32, "f64": torch.float64, "f16": torch.float16, "i64": torch.int64}
 
 
 # -------------------------------------------------------------------------------- Coq literals
@@ -143,11 +153,15 @@ class C11(vlib.Driver):
         if r < 0.12:
             p = rng.choice([0.0, 1e-9, 1e-6, FLOOR, 9.999e-6, 1.0000001e-5])
         elif r < 0.24:
-            p = rng.choice([1e4, 1e6, 3.5e7, 1e12])
+            p = rng.choice([1e4, 1e6, 3.5e7, 1e12, 1e17])
         elif r < 0.34:
             p = rng.choice([1.0, 0.5, 2.0, 0.2, 0.7, 0.001])
         else:
             p = math.exp(rng.uniform(-9, 6))
+        if dtype == "f16":
+            return float(np.float16(min(p, 6.0e4)))
+        if dtype == "i64":
+            return float(int(min(p, 1e15)))
         return f32(p) if dtype == "f32" else float(p)
 
     def _float_case(self, rng, m, nops, every):
@@ -161,7 +175,7 @@ class C11(vlib.Driver):
                 ops.append(["add", n]); size = min(m, size + n)
             elif r < 0.62:
                 k = rng.randint(1, 5)
-                dt = rng.choice(["f32", "f64"])
+                dt = rng.choice(["f32", "f32", "f64", "f64", "f16", "i64"])
                 idxs = [rng.randrange(size) for _ in range(k)]
                 if rng.random() < 0.3 and k > 1:
                     idxs[-1] = idxs[0]                     # repeated index
@@ -176,8 +190,8 @@ class C11(vlib.Driver):
                     prios = prios + [self._prio(rng, dt)]  # one priority too many: zip() drops it
                 elif k > 1 and rng.random() < 0.06:
                     prios = prios[:-1]                    # one priority too few: the last index is not updated
-                shape = [rng.choice(["col", "np"])] if rng.random() < 0.5 else []
-                if len(prios) != len(idxs) and shape == ["col"]:
+                shape = [rng.choice(["col", "np", "i32", "mixed"])] if rng.random() < 0.6 else []
+                if len(prios) != len(idxs) and shape in (["col"], ["mixed"]):
                     shape = []
                 ops.append(["update", idxs, prios, dt] + shape)
             elif r < 0.96:
@@ -186,7 +200,7 @@ class C11(vlib.Driver):
             else:
                 ops.append(["clear"]); size = 0
         return {"kind": "float", "cap": m, "alpha": alpha, "beta": beta, "ops": ops, "every": every,
-                "via_sampler": rng.random() < 0.5, "defaults": rng.random() < 0.5}
+                "via_sampler": rng.random() < 0.5, "defaults": rng.random() < 0.5, "decoy": rng.random() < 0.5}
 
     def _exact_case(self, rng, m, nops, every):
         ops, size = [], 0
@@ -245,6 +259,21 @@ class C11(vlib.Driver):
             out.append({"kind": "float", "cap": m, "alpha": 0.6, "beta": 0.4, "every": 1, "defaults": True, "via_sampler": False,
                         "ops": [["add", 1], ["update", [0], [7.25], "f64", "np"], ["add", m], ["sample", [0.0, U_MAX, 0.5]],
                                 ["update", [0, m - 1], [1e-7, 250.0], "f32", "np"], ["sample", [U_MAX, 0.0]]]})
+        # a slot takes a huge priority and later an ordinary one (every ancestor must be recomputed, not adjusted by a delta);
+        # identical calls in a row; integer / half-precision priority tensors; int32 indices; (k,) indices with (k,1) priorities
+        for m in (2, 3, 4, 8):
+            for i in sorted({0, m - 1}):
+                out.append({"kind": "float", "cap": m, "alpha": 1.0, "beta": 0.4, "every": 1, "decoy": True, "via_sampler": True,
+                            "ops": [["add", m], ["update", [i], [1e17], "f64"], ["update", [i], [0.5], "f64"], ["sample", [0.0, 0.5, U_MAX]],
+                                    ["update", [i, (i + 1) % m], [3e17, 1e-9], "f64", "mixed"], ["update", [i], [2.0], "f32"],
+                                    ["sample", [U_MAX, 0.0]], ["sample", [U_MAX, 0.0]]],
+                            "ranges": {"2": [[0, 0], [i, i + 1]], "5": [[0, 0], [0, m]]}})
+        for m in (3, 5):
+            out.append({"kind": "float", "cap": m, "alpha": 0.6, "beta": 1.0, "every": 1, "decoy": True, "via_sampler": True,
+                        "ops": [["add", 3], ["update", [0, 2], [7, 0], "i64"], ["update", [0, 2], [7, 0], "i64"],
+                                ["sample", [0.25, 0.75]], ["sample", [0.25, 0.75]], ["add", 1],
+                                ["update", [1, 1, 0], [0.3337, 60000.0, 1e-7], "f16", "i32"], ["sample", [0.25, 0.75]],
+                                ["update", [2, 1], [4, 9], "i64", "np"], ["add", m], ["sample", [0.0, U_MAX, 0.5]]]})
         return out
 
     def generate(self, tier, rng):
@@ -317,31 +346,50 @@ class C11(vlib.Driver):
         nxt = 1
         trace = []
         orig = torch.rand
+        # a second buffer of the same size used in between (state must not leak between objects), one Sampler per buffer
+        decoy = PrioritizedReplayBuffer(max_size=m, alpha=0.3) if case.get("decoy") else None
+        main_sampler = Sampler(memory=buf)
+        decoy_sampler = Sampler(memory=decoy) if decoy is not None else None
         try:
-            for op in case["ops"]:
-                rec = {"raised": False, "sample": None, "tags": None, "exc": None}
+            for oi_, op in enumerate(case["ops"]):
+                rec = {"raised": False, "sample": None, "tags": None, "exc": None, "args_modified": None}
+                if decoy is not None:
+                    decoy.add(make_transition([900 + oi_]))
+                    decoy.update_priorities(torch.tensor([0]), torch.tensor([77.0 + oi_]))
+                    decoy_sampler.sample(2, 0.7)
+                    if oi_ % 3 == 2:
+                        decoy.clear()
+                        decoy.add(make_transition([950 + oi_]))
                 try:
                     if op[0] == "add":
                         tags = list(range(nxt, nxt + op[1])); nxt += op[1]
                         rec["tags"] = tags
                         buf.add(make_transition(tags))
                     elif op[0] == "update":
-                        dt = torch.float32 if op[3] == "f32" else torch.float64
+                        dt = TORCH_DT[op[3]]
+                        vals = [int(p) for p in op[2]] if op[3] == "i64" else op[2]
+                        it, pt = torch.tensor(op[1], dtype=torch.int64), torch.tensor(vals, dtype=dt)
+                        if len(op) > 4 and op[4] == "col":   # (B, 1) tensors, as sample() returns idxs and the agents pass them back
+                            it, pt = it.unsqueeze(1), pt.unsqueeze(1)
+                        elif len(op) > 4 and op[4] == "np":  # numpy arrays (as the repository's own test passes them)
+                            it, pt = it.numpy(), pt.numpy()
+                        elif len(op) > 4 and op[4] == "i32":
+                            it = it.to(torch.int32)
+                        elif len(op) > 4 and op[4] == "mixed":  # (k,) indices with a (k, 1) priority column
+                            pt = pt.unsqueeze(1)
+                        it0, pt0 = (it.copy(), pt.copy()) if isinstance(it, np.ndarray) else (it.clone(), pt.clone())
                         try:
-                            it, pt = torch.tensor(op[1], dtype=torch.int64), torch.tensor(op[2], dtype=dt)
-                            if len(op) > 4 and op[4] == "col":   # (B, 1) tensors, as sample() returns idxs and the agents pass them back
-                                it, pt = it.unsqueeze(1), pt.unsqueeze(1)
-                            elif len(op) > 4 and op[4] == "np":  # numpy arrays (as the repository's own test passes them)
-                                it, pt = it.numpy(), pt.numpy()
                             buf.update_priorities(it, pt)
                         except AssertionError:
                             rec["raised"] = True
+                        same = (lambda a, b: a.shape == b.shape and a.dtype == b.dtype and bool((a == b).all()))
+                        rec["args_modified"] = not (same(it, it0) and same(pt, pt0))
                     elif op[0] == "sample":
                         src = ScriptedRand(op[1])
                         torch.rand = src
                         try:
-                            if case.get("via_sampler"):      # the path the training loops use (sampler.py: sample_per)
-                                s = Sampler(memory=buf).sample(len(op[1]), case["beta"])
+                            if case.get("via_sampler"):      # the path the training loops use (sampler.py: sample_per); one Sampler reused
+                                s = main_sampler.sample(len(op[1]), case["beta"])
                             elif use_defaults and case["beta"] == 0.4:
                                 s = buf.sample(len(op[1]))             # beta left to its default
                             else:
@@ -432,6 +480,8 @@ class C11(vlib.Driver):
                     for i in range(c):
                         xs.append((rec["sum"][c + i] / total) * n)
                     for x in xs:
+                        if not (x > 0):
+                            continue              # x ** -beta is only defined (and only used by the model) for positive masses
                         try:
                             tabB[x] = x ** -beta
                         except ZeroDivisionError:
@@ -483,6 +533,9 @@ class C11(vlib.Driver):
             c = rec["tcap"]
             if rec.get("exc"):
                 V("raised", f"the operation failed with {rec['exc']}")
+                break
+            if op[0] == "update" and rec.get("args_modified"):
+                V("arguments-modified", f"update_priorities changed the index / priority container it was handed ({op[1]}, {op[2]}, {op[3:]})")
                 break
             if op[0] == "update":
                 held = min(n_added, m)            # transitions stored before this op
@@ -620,6 +673,9 @@ class C11(vlib.Driver):
                 return
         # weights = (N P(i))^-beta / max_j (N P(j))^-beta, in (0, 1]
         tot = math.fsum(leaves)
+        if not (tot > 0) or any(not (leaves[j] > 0) for j in range(n)):
+            V("leaf-support", f"non-positive priority among the stored leaves {leaves[:n]} (total {tot!r})")
+            return
         raw = [(n * leaves[j] / tot) ** -beta for j in range(n)]
         mx = max(raw)
         for k, i in enumerate(idx):
@@ -743,9 +799,9 @@ class C11(vlib.Driver):
                 labs.append("wrap-around")
             return labs
         m = case["cap"]
-        if case.get("defaults"):
+        if case.get("decoy"):
             pass
-        labs = [f"kind={case['kind']}", "defaults=" + ("alpha/beta-not-passed" if case.get("defaults") else "explicit"), "sample-via=" + ("Sampler.sample_per" if case.get("via_sampler") else "buffer.sample"), f"max_size={m if m <= 9 else '>9'}", f"alpha={case['alpha']}", f"beta={case['beta']}",
+        labs = [f"kind={case['kind']}", "defaults=" + ("alpha/beta-not-passed" if case.get("defaults") else "explicit"), "decoy-buffer=" + ("yes" if case.get("decoy") else "no"), "sample-via=" + ("Sampler.sample_per" if case.get("via_sampler") else "buffer.sample"), f"max_size={m if m <= 9 else '>9'}", f"alpha={case['alpha']}", f"beta={case['beta']}",
                 "capacity=" + ("pow2" if m & (m - 1) == 0 else "non-pow2")]
         w, s = self._flags(case)
         if w:
@@ -759,6 +815,9 @@ class C11(vlib.Driver):
             if op[0] == "update":
                 if len(op) > 4:
                     labs.append(f"update-args={op[4]}")
+                labs.append(f"priority-dtype={op[3]}")
+                if any(p >= 1e16 for p in op[2]):
+                    labs.append("branch:priority>=1e16")
                 if any(i != m and i >= rec["len"] for i in op[1]):
                     labs.append("branch:update-unstored-index")
                 if any(i < 0 for i in op[1]):
